@@ -55,16 +55,14 @@ func (this *Hnsw) Save(w io.Writer, header bool) error {
 		}
 	}
 
-	if this.Len() == 0 {
-		return nil
-	}
-
-	// Store entrypoint
-	entrypoint := (*hnswVertex)(atomic.LoadPointer(&this.entrypoint))
-	if entrypoint == nil {
+	// Store entrypoint (nil id for an empty index)
+	entrypointId := uuid.Nil
+	if entrypoint := (*hnswVertex)(atomic.LoadPointer(&this.entrypoint)); entrypoint != nil {
+		entrypointId = entrypoint.id
+	} else if this.Len() > 0 {
 		return NoEntrypointErr
 	}
-	if _, err := w.Write(entrypoint.id.Bytes()); err != nil {
+	if _, err := w.Write(entrypointId.Bytes()); err != nil {
 		return err
 	}
 
@@ -124,6 +122,16 @@ func (this *Hnsw) Save(w io.Writer, header bool) error {
 	return nil
 }
 
+// Drops all items. Used when an empty snapshot is loaded.
+func (this *Hnsw) reset() {
+	for i, _ := range this.vertices {
+		this.vertices[i] = make(map[uuid.UUID]*hnswVertex)
+	}
+	this.len = 0
+	this.bytesSize = 0
+	atomic.StorePointer(&this.entrypoint, nil)
+}
+
 func (this *Hnsw) Load(r io.Reader, header bool) error {
 	if header {
 		var size uint32
@@ -150,7 +158,12 @@ func (this *Hnsw) Load(r io.Reader, header bool) error {
 	var distance float32
 
 	uuidBuf := make([]byte, uuid.Size)
-	if _, err := r.Read(uuidBuf); err != nil {
+	if _, err := io.ReadFull(r, uuidBuf); err != nil {
+		if err == io.EOF {
+			// Snapshot of an empty index written by an older version (no body).
+			this.reset()
+			return nil
+		}
 		return err
 	}
 	entrypointId, err := uuid.FromBytes(uuidBuf)
@@ -159,6 +172,7 @@ func (this *Hnsw) Load(r io.Reader, header bool) error {
 	}
 
 	this.len = 0
+	this.bytesSize = 0
 	// Load vertices
 	var shardSize uint32
 	var vertex *hnswVertex
@@ -172,7 +186,7 @@ func (this *Hnsw) Load(r io.Reader, header bool) error {
 		verticesShard := this.vertices[i]
 
 		for i := 0; i < int(shardSize); i++ {
-			if _, err := r.Read(uuidBuf); err != nil {
+			if _, err := io.ReadFull(r, uuidBuf); err != nil {
 				return err
 			}
 			id, err := uuid.FromBytes(uuidBuf)
@@ -206,7 +220,7 @@ func (this *Hnsw) Load(r io.Reader, header bool) error {
 	// Load edges
 	for _, verticesShard := range this.vertices {
 		for i := 0; i < len(verticesShard); i++ {
-			if _, err := r.Read(uuidBuf); err != nil {
+			if _, err := io.ReadFull(r, uuidBuf); err != nil {
 				return err
 			}
 			id, err := uuid.FromBytes(uuidBuf)
@@ -220,7 +234,7 @@ func (this *Hnsw) Load(r io.Reader, header bool) error {
 					return err
 				}
 				for j := 0; j < int(numEdges); j++ {
-					if _, err := r.Read(uuidBuf); err != nil {
+					if _, err := io.ReadFull(r, uuidBuf); err != nil {
 						return err
 					}
 					neighborId, err := uuid.FromBytes(uuidBuf)
